@@ -298,11 +298,11 @@ func init() {
 					nExec++
 				}
 			}
-			iExec, iR, iSave := indexOf(ss, "err := next.ExecNext(ctx, qCtx)"), indexOf(ss, "r := qCtx.R()"), indexOf(ss, "if r != nil { saveRespToCache(msgKey, r, c.backend, c.args.LazyCacheTTL) c.updatedKey.Add(1) }")
-			okStore = nSave == 1 && nSet == 0 && nExec == 1 && iExec >= 0 && iR > iExec && iSave > iR
+			iExec, iR, iSave := indexOf(ss, "err := next.ExecNext(ctx, qCtx)"), indexOf(ss, "r := qCtx.R()"), indexOf(ss, "if r != nil && rBefore != r { saveRespToCache(msgKey, r, c.backend, c.args.LazyCacheTTL) c.updatedKey.Add(1) }")
+			okStore = nSave == 1 && nSet == 0 && nExec == 1 && iExec >= 0 && iR > iExec && iSave > iR && indexOf(ss, "rBefore := qCtx.R()")+1 == iExec
 		}
 		ex.setBool("c05RefreshStoresContextResp", okStore, lz != nil,
-			"doLazyUpdate: `err := next.ExecNext(ctx, qCtx)` on the copy, then `r := qCtx.R()` and `if r != nil { saveRespToCache(msgKey, r, ...) }`; no SetResponse in the refresh itself")
+			"doLazyUpdate: `err := next.ExecNext(ctx, qCtx)` on the copy, preceded by `rBefore := qCtx.R()`, then `r := qCtx.R()` and `if r != nil && rBefore != r { saveRespToCache(msgKey, r, ...) }`; no SetResponse in the refresh itself")
 	})
 }
 
